@@ -191,6 +191,17 @@ def judge(case):
         for (a, ea), (b, eb) in zip(p, p[1:]):
             if doc.deg.get((a, ea), 0) != 1 or doc.deg.get((b, SL.OTHER[eb]), 0) != 1:
                 out.append(('a linear path joins ends that carry more than one dovetail', None, p))
+    # the path of one segment, asked directly (several in a row on one Gfa): the chain that holds the segment
+    for c, cyc in chains:
+        members = set(n for n, _ in c)
+        for n in sorted(members)[:3]:
+            rp = impl.outcome(lambda: [x.name for x in G.linear_path(n)])
+            if rp[0] != 'ok':
+                out.append(('linear_path(%r) raised %s' % (n, impl.outcome_name(rp)), sorted(members), None))
+            elif set(rp[1]) != members:
+                out.append(('linear_path(%r) is not the maximal chain through that segment' % n, sorted(members), rp[1]))
+    if out:
+        return out, info
     before_comp = impl.outcome(lambda: sorted(sorted(s.name for s in c) for c in G.connected_components()))
     before = [str(x) for x in G.lines]
     bad_cigar = any(SL.cut_of(lk[3]) is None for lk in doc.links if doc.simple(lk))
